@@ -99,6 +99,7 @@ NEEDS.update({
  'C12-r2m1': 'radius clamped to u32::MAX; needs n above 2^32-1 and an equal run longer than that (synthetic op lists only)',
  'C12-r2m2': 'TextDiff::grouped_ops returns no groups when ratio() >= 1.0; the f32 ratio rounds to 1.0 only for about 8.4 million tokens per side with a single changed token',
 })
+NEEDS.update({'C01-r3m1': 'Myers deadline fallback computes the insert length as new_range.end - old_range.start; needs an expiring deadline and an approximated section starting at different offsets in old and new (sub-ranges, or expiry inside a nested sub-problem)', 'C01-r3m2': 'Patience reports the common prefix up front but re-slices the new range from old_range.start; needs Patience, old_range.start != new_range.start and a common prefix', 'C01-r3m3': 'dispatcher fast path for an already expired deadline measures the common suffix on untrimmed ranges: head and tail overlap; needs an expired deadline and an insertion/deletion inside a repetition ([1] vs [1,1])', 'C02-r3m1': 'merged (Insert,Insert)/(Delete,Delete) arms in shift_diff_ops_up grow by the old-side length (0 for inserts); needs an insertion sliding up over a whole Equal run into an earlier insertion ("ab" vs "baa")', 'C02-r3m2': 'capture_diff_deadline fast path for an empty old range builds the Insert with new_index = old_range.start; needs an empty old sub-range whose start differs from new_range.start', 'C02-r3m3': 'TextDiffConfig::diff fast path for identical token lists returns [Equal{0,0,0}] for two empty texts; needs both inputs empty and a caller that looks at ops()', 'C03-r3m1': 'Myers gives up ("unrelated ranges") when no snake was extended after 64 rounds; needs a shared block flanked on all four sides by more than 32 items that match nothing', 'C03-r3m2': 'LCS table filled only in a diagonal band of |N-M|+128; needs Lcs and a best common subsequence pairing positions more than 128 apart (block moved past 129+ unrelated items)', 'C03-r3m3': 'head/tail peeled off before interning in the >100-token branch with the tail measured on untrimmed lists; needs >100 tokens and a duplicated neighbouring token', 'C04-r3m1': '[u8] tokenize_words sizes the first char of a token with len_utf8 (3 for U+FFFD); needs a 1-2 byte invalid sequence standing alone between blanks or at the end', 'C04-r3m2': 'tokenize_lines learns U+2028/U+2029 but the str side assumes a 1-byte terminator: panic inside the char; needs a str with U+2028/U+2029 and the line tokenizer', 'C04-r3m3': 'O(1) "same buffer" shortcut in TextDiffConfig::diff compares token START addresses; needs old and new to be views into one buffer with the same start and token count but a longer last token', 'C05-r3m1': 'UnifiedDiffHunk::to_writer decides the missing-newline marker with ends_with(b"\\n") only; needs a shown line terminated by a lone CR rendered through to_writer', 'C05-r3m2': 'Equal created after an upward slide reads new_index from the stale pre-shift copy; needs an insert that slides over a whole equal run, merges with an earlier insert and is followed by a Delete/Replace; visible in hunk headers at radius 0', 'C05-r3m3': 'diff_lines derives newline_terminated from "some line ends with a newline"; needs texts without any terminator (single unterminated lines) that differ: no missing-newline marker', 'C06-r3m1': '[u8] tokenize_chars splits U+FFFD ranges byte-wise "for binary garbage": a literal U+FFFD (EF BF BD) becomes three tokens; needs a validly encoded U+FFFD', 'C06-r3m2': 'str tokenize_lines takes a CR-free fast path after sniffing the first 4096 bytes; needs a str longer than 4 KiB without CR in the first 4096 bytes and a lone CR later', 'C06-r3m3': '[u8] tokenize_lines emits a leading UTF-8 BOM as its own token; needs a byte string starting with EF BB BF', 'C07-r3m1': 'thread-local cache of the last deadline seen expired compares the wrong way round; needs two diffs on one thread: one with a really expired deadline, then one with a far deadline/timeout', 'C07-r3m2': 'TextDiffConfig keeps deadline and timeout in two fields and timeout always wins; needs timeout() then deadline() on one builder', 'C07-r3m3': 'Patience gap diffs moved into a helper that calls myers::diff without the deadline; needs Patience, an expired deadline and a matched anchor preceded by a large dissimilar non-unique stretch (promptness only)', 'C08-r3m1': 'Compact::finish always finishes the wrapped hook, also after a failed replay; needs Compact in the stack and an inner hook failing during the replay', 'C08-r3m2': 'Patience strips common affixes for inputs >= 1024 items and reports the suffix after the user hook was finished; needs Patience, >= 1024 items and a common suffix', 'C08-r3m3': 'forwarders generated by a macro: &mut D loses its finish forwarder; needs a hook stack in which an adapter owns a &mut hook (Replace::new(&mut h), Compact::new(&mut h, ..))', 'C09-r3m1': 'slide-down gate peeks at old[ins.old_index], which is stale after the up-swap; needs a Replace preceded by an equal run ending in the last inserted item ("baba" vs "bbb")', 'C09-r3m2': 'Compact::finish skips the clean-up for scripts with at most one change op; needs a hand-fed script whose only change is an insert placed earlier than necessary', 'C09-r3m3': 'slide-down stops after a "partial" match although the prefix was bounded by a short Equal op; needs an inserted block of >= 2 items sliding over an Equal shorter than the block with the match continuing in the next op', 'C10-r3m1': 'Equal created by an upward partial slide gets prev_op.new_range().end as its new index; needs Insert A, Equal R, Insert B with B longer than R, ending in R, not followed by an Equal', 'C10-r3m2': 'slide-down early exit when only part of the insertion matched; needs a split Equal run (hand-fed scripts) after an insertion of >= 2 items', 'C10-r3m3': 'upward merge of two insertions grows the survivor by its own length; needs an insertion sliding up over a complete equal run into an earlier insertion of a different length', 'C11-r3m1': 'tail re-attached behind an upward-sliding insertion keeps its pre-move new index; needs the insertion to swallow the whole preceding Equal and meet an earlier edit, or be followed by a Delete', 'C11-r3m2': '>100-token branch strips head and tail before interning with the tail measured against the full new side; needs >100 lines and the removal of a doubled line', 'C11-r3m3': 'Myers cost limit d > max(256, sqrt(n+m)) takes the fallback delete+insert(old.start); needs >512 edits in one section and compaction sliding the Insert behind an Equal (stale old_index that passes through the swap site)', 'C12-r3m1': 'TextDiff::grouped_ops caches the last grouping and reuses a single-group result for any larger radius; needs two calls on one diff, the first with a smaller radius giving exactly one group', 'C12-r3m2': 'Capture keeps a dirty flag that insert() forgets to set: into_grouped_ops returns no groups; needs a diff whose only changes are Insert ops, grouped through Capture::into_grouped_ops', 'C12-r3m3': 'radius above usize::MAX/2 returns vec![ops] untrimmed; needs such a radius with an op list without changes (a group of Equal only) or an outer run longer than n', 'C13-r3m1': 'AllChangesIter::next advances once instead of looping; leading empty ops are skipped in new(); needs a hand-built hunk with an empty op in the middle (all radius-0 groups concatenated)', 'C13-r3m2': 'DiffOp::iter_slices rewritten over as_tag_tuple takes an Equal run from new; needs old/new items that are equal but distinguishable, or an Equal op over unequal sequences', 'C13-r3m3': 'apply_to_hook silently drops ops that cover nothing; needs a zero-length op (the Equal anchors of radius-0 groups) replayed into a capturing hook', 'C14-r3m1': '>100-token branch builds the TextDiff with the tokenizer default for newline_terminated, ignoring the override; needs >100 tokens and an explicit override different from the default', 'C14-r3m2': 'IdentifyDistinct run fast path (item equals its predecessor) guarded by idx > 0 instead of idx > range.start; needs a non-zero range start inside a run of equal items', 'C14-r3m3': 'Algorithm::Lcs silently computed with Myers above 2^20 table cells in the >100-token branch; needs Lcs, > 1 M cells and an input where the two break ties differently', 'C15-r3m1': 'unique() fills its repeated-flags by absolute index but reads them range-relative; needs Patience on a sub-range with non-zero start and repeats crossing a unique common item', 'C15-r3m2': 'one Myers pass per RUN of anchors (first and last only); needs >= 3 unique common items consecutive in both unique lists and a repeated block crossing a middle one', 'C15-r3m3': '"old has no repeats" fast path falls back to plain Myers; needs old without repeats and new with repeats arranged so that the LCS avoids a unique common item', 'C16-r3m1': 'MultiLookup reuses the tokens of an identical previous line with a stale start marker; needs >= 3 identical consecutive lines on one side of a Replace op', 'C16-r3m2': 'newline un-emphasising skipped when newline_terminated() is false; needs a line diff built with newline_terminated(false) or diff_slices over lines with terminators and a changed terminator', 'C16-r3m3': 'get_original_slices rewrite uses a sub-slice-relative line index; needs a Replace with >= 4 lines on a side and a word run spanning >= 3 lines that starts after the first line', 'C17-r3m1': 'shared word_ranges helper sizes runs with char::len_utf8; needs [u8] input, word tokenization and an invalid sequence shorter than 3 bytes', 'C17-r3m2': 'DiffOp::iter_slices takes Equal runs from new; needs slices checked for identity (pointer) or items that are equal but distinguishable', 'C17-r3m3': 'SliceRemapper fast path when token count == byte length; needs a caller-defined tokenization with an empty token and multi-byte tokens (count equals length)', 'C18-r3m1': 'length pre-filter replaced by a precomputed f32 length window that rounds the other way; needs a cutoff equal to a candidate ratio bit for bit with an unlucky length pair ((3,7), (1,2), ...)', 'C18-r3m2': 'QuickSeqRatio flat table for one-byte tokens: new() and calc() classify stray bytes 0x80-0xFF differently; needs [u8] input with single non-UTF-8 bytes shared by word and candidate', 'C18-r3m3': 'get_close_matches compares grapheme clusters instead of chars when the unicode feature is on; needs a multi-code-point cluster partially matching the other side', 'C19-r3m1': 'Patience re-anchors the tail after the last anchor recursively; needs values occurring twice a few positions apart, interleaved, with a unique item only at the front (quadratic at D=0)', 'C19-r3m2': 'unique() keeps an ordered candidate list and removes repeats by linear search; needs many distinct values whose second occurrence is far from the first', 'C19-r3m3': 'budgeted forward-only probe splits at the last snake: conquer recurses D levels; needs ~100 <= D <= (N+M)/16 scattered edits on repetitive content', 'C20-r3m1': '[u8] tokenize_lines scans 64-byte blocks and looks for the LF after a CR only inside the block; needs a CRLF whose CR sits at offset 63 mod 64 (bytes only: str and bytes disagree)', 'C20-r3m2': '>100-token branch interns as_bytes() instead of the tokens; needs a caller-defined DiffableStr type whose Eq is coarser than byte equality and > 100 tokens', 'C20-r3m3': 'capture_diff_deadline interns items wider than a machine word (>100 items) only between the common head and tail: Patience anchors change; needs Patience, >100 items, a wide item type compared with a narrow relabelling, and a head/tail item unique in the middle'})
 EXTRA = {
  'C02-r2m1': 'not reachable by C02 (an exact LCS diff of 8192 x 8192 items is infeasible); caught by C07 (huge-expired stage)',
  'C02-r2m2': 'NOT CAUGHT: needs a 32-bit hash collision between two generated tokens (probability about 2^-32 per compared pair); outside what generated-input search can reach without knowing the hash',
@@ -109,11 +110,42 @@ EXTRA = {
  'C17-r2m2': 'NOT CAUGHT and not claimed: slice_old(0..0) is outside the property (ops are never empty; the unchanged code panics there in debug builds)',
 }
 
+EXTRA.update({'C01-r3m1': 'C01 quantifies over deadline-free calls; the change only acts when a deadline expires: caught by C07 and C02 (whose domains include deadlines)', 'C01-r3m3': 'as C01-r3m1: only acts with an expired deadline; caught by C07 and C02'})
+
+# cumulative, committed results: seeded/results.tsv (name, check, exit, message); new lines of
+# work/seed-results.tsv (written by tools/run_seed.sh) are merged in, the latest run of a
+# (change, check) pair wins
 res = collections.defaultdict(dict)
-for l in open(os.path.join(ROOT,'work/seed-results.tsv')):
-    f = l.rstrip('\n').split('\t')
-    if len(f) < 5: continue
-    res[f[0]][f[1]] = (int(f[2]), f[5] if len(f) > 5 else '')
+PERSIST = os.path.join(ROOT, 'seeded', 'results.tsv')
+if os.path.exists(PERSIST):
+    for l in open(PERSIST):
+        f = l.rstrip('\n').split('\t')
+        if len(f) >= 3:
+            res[f[0]][f[1]] = (int(f[2]), f[3] if len(f) > 3 else '')
+else:
+    # first run of this version: recover the results of rounds 1 and 2 from the existing meta.json files
+    for name in os.listdir(os.path.join(ROOT, 'seeded')):
+        mp = os.path.join(ROOT, 'seeded', name, 'meta.json')
+        if os.path.exists(mp):
+            m = json.load(open(mp))
+            checks = ['C%02d' % i for i in range(1, 21)] if 'for all 20' in m.get('ran_against_checks', '') and '-r2' not in name else [m['breaks_property']]
+            for c in checks:
+                res[name][c] = (0, '')
+            for c in m.get('caught_by_quick_checks', []):
+                res[name][c] = (1, m.get('primary_message', '') if c == m['breaks_property'] else '')
+            for c in m.get('inconclusive', []):
+                res[name][c] = (2, '')
+wp = os.path.join(ROOT, 'work/seed-results.tsv')
+if os.path.exists(wp):
+    for l in open(wp):
+        f = l.rstrip('\n').split('\t')
+        if len(f) < 5: continue
+        res[f[0]][f[1]] = (int(f[2]), f[5] if len(f) > 5 else '')
+with open(PERSIST, 'w') as out:
+    for name in sorted(res):
+        for c in sorted(res[name]):
+            rc, msg = res[name][c]
+            out.write('%s\t%s\t%d\t%s\n' % (name, c, rc, msg.replace('\t', ' ')[:400]))
 rows = []
 for name in sorted(os.listdir(os.path.join(ROOT,'seeded'))):
     d = os.path.join(ROOT,'seeded',name)
@@ -125,10 +157,10 @@ for name in sorted(os.listdir(os.path.join(ROOT,'seeded'))):
     meta = {
         'name': name,
         'breaks_property': prop,
-        'origin': ('round 2 (adversarial): written by a fresh sub-agent that was given the text of the property, the ideas already used in round 1, and a description of the INPUT SPACE my generators covered at that time, and was asked for changes that survive it' if '-r2' in name else 'round 1: written by a fresh sub-agent that was given only the text of the property and its own scratch worktree of /repo (nothing from /verif)'),
+        'origin': ('round 3 (independent): written by a fresh sub-agent that was given only the text of the property (statement, quantifier, anchors), its own scratch worktree of /repo, and one-line summaries of the changes already proposed for that property in rounds 1 and 2 (so that it proposes different ones) - nothing from /verif' if '-r3' in name else 'round 2 (adversarial): written by a fresh sub-agent that was given the text of the property, the ideas already used in round 1, and a description of the INPUT SPACE my generators covered at that time, and was asked for changes that survive it' if '-r2' in name else 'round 1: written by a fresh sub-agent that was given only the text of the property and its own scratch worktree of /repo (nothing from /verif)'),
         'needs_to_manifest': NEEDS.get(name, ''),
         'validated_by_me': 'tools/validate_seed.sh: patch applies to /repo HEAD in a scratch worktree; `cargo test --workspace --no-fail-fast --offline` passes with it (41 tests); demo.rs (as tests/demo.rs, `cargo test --offline --all-features --test demo`) fails with the patch and passes without',
-        'ran_against_checks': 'tools/run_seed.sh %s  (git -C /repo apply patch.diff; bin/check <ID> quick for all 20; git -C /repo checkout -- .)' % name,
+        'ran_against_checks': 'tools/run_seed.sh %s %s  (git -C /repo apply patch.diff; bin/check <ID> quick; git -C /repo checkout -- .)' % (name, ' '.join(sorted(r))),
         'caught_by_quick_checks': caught,
         'inconclusive': inconcl,
         'primary_check_catches': prop in caught,
